@@ -308,6 +308,7 @@ package plugin
 
 // The type a pointer points to; anything but a pointer is a programming error (panic).
 //@ func PtrType
+//@ modifies nothing
 //@ props C18
 //@ nilsafe
 //@ may_panic true
